@@ -50,13 +50,18 @@ func (c15) Generate(r *core.Rand, tier string, idx uint64) *core.Case {
 	if r.Chance(0.3) {
 		c.Config["localOnly"] = 0 // clone B is purely behind
 	}
+	if r.Chance(0.15) {
+		// both sides changed the same reference, one of them only through a propagation entry
+		c.Flags["propConflict"] = true
+		c.Config["propSide"] = r.Intn(2) // 0: the local side's update is the propagation entry, 1: the remote side's
+	}
 	if r.Chance(0.5) {
 		c.Flags["remoteAnnotated"] = true
 		c.Config["annPattern"] = r.Intn(5)
 		c.Config["remoteOnly"] = r.Range(0, 2)
 	}
 	c.Flags["syncOnly"] = r.Chance(0.3)  // Sync without a prior reconcile
-	c.Flags["overlap"] = r.Chance(0.25)  // B also changes a ref A changed
+	c.Flags["overlap"] = r.Chance(0.3)  // B also changes a ref A changed
 	c.Flags["overwrite"] = r.Chance(0.3) // Sync's overwrite flag
 	c.Flags["localRefDiverged"] = r.Chance(0.2)
 	c.Config["fault"] = 0 // 0 none, 1 torn push, 2 lost ack
@@ -188,6 +193,15 @@ func (d c15) Execute(c *core.Case) (res *core.Result) {
 			appendEntry(a, &remoteLog, c15Log{kind: "annotation", targets: []int{x}, skip: false})
 		}
 	}
+	if c.Flags["propConflict"] {
+		kind := "reference"
+		if c.Config["propSide"] == 1 {
+			kind = "propagation"
+		}
+		t := newCommit(a, refsAll[0], "remote-conflicting")
+		remoteRefs[refsAll[0]] = true
+		appendEntry(a, &remoteLog, c15Log{kind: kind, ref: refsAll[0], target: t})
+	}
 	for i := 0; i < c.Config["remoteOnly"]; i++ {
 		if r.Chance(0.35) && len(remoteLog) > 0 {
 			t := r.Intn(len(remoteLog))
@@ -216,8 +230,21 @@ func (d c15) Execute(c *core.Case) (res *core.Result) {
 	// B's local-only suffix
 	localLog := append([]c15Log{}, shared...)
 	localRefsChanged := map[string]bool{}
+	if c.Flags["propConflict"] {
+		kind := "propagation"
+		if c.Config["propSide"] == 1 {
+			kind = "reference"
+		}
+		t := newCommit(b, refsAll[0], "local-conflicting")
+		localRefsChanged[refsAll[0]] = true
+		appendEntry(b, &localLog, c15Log{kind: kind, ref: refsAll[0], target: t})
+	}
 	for i := 0; i < c.Config["localOnly"]; i++ {
-		switch k := r.Weighted([]int{6, 3, 2}); k {
+		wts := []int{6, 3, 2}
+		if c.Flags["overlap"] {
+			wts = []int{4, 2, 4} // a propagation entry is the kind of update a conflict check overlooks
+		}
+		switch k := r.Weighted(wts); k {
 		case 1:
 			// annotation targeting shared or local-only entries, possibly several
 			n := r.Range(1, 2)
